@@ -159,6 +159,18 @@ def expand(fn: ast.FunctionDef, call: ast.Call, is_method: bool, make):
             if n.id in binding and isinstance(n.ctx, ast.Load):
                 return ast.copy_location(copy.deepcopy(binding[n.id]), n)
             return n
+
+        def visit_Lambda(self, lam):
+            # a parameter read inside a lambda the helper creates was bound when the helper was called: it stays bound then, as a default
+            used = [p_ for p_ in binding if any(isinstance(y, ast.Name) and y.id == p_ for y in ast.walk(lam.body))]
+            own = {a.arg for a in lam.args.args}
+            if not used or lam.args.vararg or lam.args.kwarg or lam.args.kwonlyargs or (set(used) & own):
+                return self.generic_visit(lam)
+            lam = copy.deepcopy(lam)
+            for p_ in used:
+                lam.args.args.append(ast.arg(arg=p_))
+                lam.args.defaults.append(copy.deepcopy(binding[p_]))
+            return lam
     body = [s for s in fn.body if not (isinstance(s, ast.Expr) and isinstance(s.value, ast.Constant) and isinstance(s.value.value, str))]
     body = [Sub().visit(copy.deepcopy(s)) for s in body]
     out = _tail(body, make)
@@ -282,6 +294,19 @@ def _as_expression(fn, call, is_method: bool):
             if n.id in binding and isinstance(n.ctx, ast.Load):
                 return ast.copy_location(copy.deepcopy(binding[n.id]), n)
             return n
+
+        def visit_Lambda(self, lam):
+            # a parameter that a returned lambda reads was bound when the helper was CALLED: it stays bound at that moment, as a default
+            # (`lambda x: f(spec, x)` returned by helper(spec)  ==  `lambda x, spec=<argument>: f(spec, x)`), never late
+            used = [p_ for p_ in binding if any(isinstance(y, ast.Name) and y.id == p_ for y in ast.walk(lam.body))]
+            own = {a.arg for a in lam.args.args}
+            if not used or lam.args.vararg or lam.args.kwarg or lam.args.kwonlyargs or (set(used) & own):
+                return self.generic_visit(lam)
+            lam = copy.deepcopy(lam)
+            for p_ in used:
+                lam.args.args.append(ast.arg(arg=p_))
+                lam.args.defaults.append(copy.deepcopy(binding[p_]))
+            return lam
     return Sub().visit(copy.deepcopy(body[0].value))
 
 
